@@ -160,7 +160,9 @@ def run(ctx):
             ctx.ok("R04.1", fn, construct, "guard precondition established in all %d calling context(s): `%s` is unreachable from parse()"
                    % (s["unreach"], s["text"][:70]), where)
             continue
-        exempt = [q for q in EXEMPT_RAISE if fn.id.startswith(q + "(")]
+        # the exemption holds for the exempt function and for whatever only it calls (its closure, a named function object
+        # handed to for_each_option): every chain that reaches the raise has a frame of the exempt function on it
+        exempt = [q for q in EXEMPT_RAISE if fn.id.startswith(q + "(") or all(any(c.startswith(q + "(") or c.startswith(q + "::") for c in chain) for chain, _ in s["reach"])]
         if exempt:
             # checked reason: the facts guarding the raise mention no parse input (only declaration state)
             input_free = True
@@ -286,7 +288,7 @@ def run(ctx):
         ("unknown name/letter", PARSE_VEC, 2),  # unexpected positional + could-not-be-parsed
         ("missing value", None, 1),  # in try_parse_as_option (template): checked per instantiation
         ("given twice", NS + "option::update_value(const nitro::options::user_input &)", 1),
-        ("=value on a toggle / reversal", NS + "toggle::update_value(const nitro::options::user_input &)", 4),
+        ("=value on a toggle / reversal", NS + "toggle::update_value(const nitro::options::user_input &)", 3),  # the two conflict directions may share one guard
         ("malformed dash token", NS + "user_input::user_input(const std::string &)", 1),
         ("required without source (option)", NS + "option::check()", 1),
         ("required without source (multi_option)", NS + "multi_option::check()", 1),
